@@ -94,13 +94,21 @@ def run_machine(ck, tier, wd, exe, exe_asan):
         passes = [(VERSIONS, "0,1,2", 0, 1, 0), (["SSE", "FO4_139", "FO76", "OB"], "1,2", 12, 1, 0)]
     else:
         passes = [(VERSIONS, "0,1,2", 24, 1, 0)]
+    # value sweep: which small values of which generator fields steer the layout of a block (enumerations, flags, "no string")
+    discr = os.path.join(wd, "discr.ndjson")
+    rc, out, err = vlib.run_harness(exe, ["c01-probe", discr, "12", "12" if tier == "quick" else "0"], timeout=3000)
+    if rc != 0:
+        raise vlib.InfraError("c01-probe failed: " + err[-500:])
+    ck.cov["value_sweep_settings"] = json.loads(out.strip().splitlines()[-1])["settings"]
+    passes.append(([], "2", 0, 1, 0))
     traces = []
     for pi, (vers, modes, maxboost, stride, offset) in enumerate(passes):
         cfg = os.path.join(wd, "mc%d.cfg" % pi)
-        open(cfg, "w").write("SPECIFICATION Spec\nCONSTANTS Versions = {%s}\n Modes = {%s}\n NBoost = %d\n Stride = %d\n Offset = %d\n"
-                             "INVARIANT Emit\nCHECK_DEADLOCK FALSE\n" % (", ".join('"%s"' % v for v in vers), modes, maxboost, stride, offset))
+        open(cfg, "w").write("SPECIFICATION Spec\nCONSTANTS Versions = {%s}\n Modes = {%s}\n NBoost = %d\n Stride = %d\n Offset = %d\n UseDiscr = %s\n"
+                             "INVARIANT Emit\nCHECK_DEADLOCK FALSE\n" % (", ".join('"%s"' % v for v in vers), modes, maxboost, stride, offset,
+                                                                          "TRUE" if not vers else "FALSE"))
         cfgs = os.path.join(wd, "configs%d.ndjson" % pi)
-        r = vlib.tlc("NifWireMC", cfg, workers=8, timeout=3000, env={"TYPES": types}, export_to=cfgs, tag="c01-mc%d" % pi, heap="12g")
+        r = vlib.tlc("NifWireMC", cfg, workers=8, timeout=3000, env={"TYPES": types, "DISCR": discr}, export_to=cfgs, tag="c01-mc%d" % pi, heap="12g")
         ck.add_tlc("NifWireMC(pass %d)" % pi, r, "configuration space of the round-trip machine")
         if r.rc != 0:
             raise vlib.InfraError("NifWireMC failed")
